@@ -31,7 +31,7 @@ def sim_cfgs(params):
 
 
 def sim_execute(params, script, inject=None):
-    k = sk.Kernel(script=script, inject=inject, term=params["term"], settle=5, late_delay=1.5)
+    k = sk.Kernel(script=script, inject=inject, term=params["term"], settle=5, late_delay=1.5, pid_order=params.get("pids", "ascending"))
     k.fs.dirs.add("/run")
     o = sk.run_arbiter(sim_cfgs(params), k)
     return k, o
@@ -134,6 +134,9 @@ def sim_part(thorough):
                     for si, script in enumerate(HUP_SCRIPTS):
                         do_mid = bind == "tcp" and (thorough or si in (0, 1)) and term != "late"
                         tasks.append((params, script, do_mid))
+                        if bind == "tcp" and term == "now":
+                            # pid counter wrapped around: the new generation has lower pids than the old one
+                            tasks.append((dict(params, pids="descending"), script, False))
     res = par.pmap(_sim_task, tasks, chunksize=1)
     viols = {}
     runs = 0
